@@ -136,12 +136,6 @@ Fixpoint intern_txs (t : aftable) (l : list (ctx * bytes)) : list ctx * aftable 
       ({| x_sec := x_sec x; x_td := x_td x; x_sd := x_sd x; x_act := x_act x;
           x_memo := x_memo x; x_af := a; x_ri := x_ri x |} :: xs, t2)
   end.
-Fixpoint all2 {T} (f : T -> T -> bool) (a b : list T) : bool :=
-  match a, b with
-  | [], [] => true
-  | x :: a', y :: b' => f x y && all2 f a' b'
-  | _, _ => false
-  end.
 Definition run_roundtrip : P (list Z) :=
   pre <~ plist pbytes ;; l <~ plist pctx0 ;;
   let tbl0 := snd (intern_all [] pre) in
@@ -149,12 +143,12 @@ Definition run_roundtrip : P (list Z) :=
   let valid := forallb (valid_tx tbl) txs in
   let '(tab, tbl1) := write_table tbl txs in
   let rd := read_table tbl1 (fst tab) (snd tab) in
-  pret (obool valid :: obool (K_memo_untrimmed txs) :: flat_map (fun t => oaff (x_af t)) txs
+  pret (obool valid :: obool (K_memo_untrimmed txs || K_default_split txs) :: flat_map (fun t => oaff (x_af t)) txs
           ++ otable tab
           ++ match rd with
              | Ok (txs', tbl2) =>
                  0 :: Z.of_nat (length txs') :: flat_map octx txs'
-                   ++ [obool (all2 (tx_same (no_named_affiliate txs)) txs txs')]
+                   ++ [obool (forall2b (tx_same (no_named_affiliate txs)) txs txs')]
                    ++ otable (fst (write_table tbl2 txs'))
              | Rej e => 1 :: orejc e
              | Panic _ => [2]
